@@ -271,7 +271,7 @@ HARNESSES = [
     H('C10', 'c10_case_sigma_n2', '$P::c10::case_sigma::<2, 8, 6, _>', unwind=8, stubs=('str', 'case'), timeout=900, mem_gb=20,
       funcs=['common::case_mapping_rule', 'common::has_lowercase_mapping', 'char::is_lowercase (ASCII fast paths)', 'char::to_lowercase (iterator)'],
       bound='strings of 0..=2 characters over SIGMA_CASE (small, fast variant of c10_case_sigma_n3)'),
-    H('C10', 'c10_case_sigma_n3', '$P::c10::case_sigma::<3, 12, 9, _>', unwind=11, stubs=('str', 'case'), timeout=900, mem_gb=26,
+    H('C10', 'c10_case_sigma_n3', '$P::c10::case_sigma::<3, 12, 9, _>', unwind=11, stubs=('str', 'case'), tiers=T, timeout=900, mem_gb=26,
       funcs=['common::case_mapping_rule', 'common::has_lowercase_mapping', 'char::is_lowercase (ASCII fast paths)', 'char::to_lowercase (iterator)'],
       bound='strings of 0..=3 characters over SIGMA_CASE (23 witnesses: every combination of cased/uncased, lower/upper/title, '
             '1-4 byte, growing/shrinking/multi-character mappings)'),
@@ -478,10 +478,13 @@ HARNESSES = [
     H('C03', 'c03_rule_ext_arabic_n5', '$P::c03::rule_ext_arabic_b::<5, 20, _>', unwind=8, stubs=('ctx',), tiers=T, timeout=3000, mem_gb=20,
       funcs=['context::rule_extended_arabic_indic_digits', 'context::before', 'context::after'],
       bound='labels of 0..=5 characters, every character any Unicode scalar value; offset ANY usize'),
-    H('C03', 'c03_rule_zwnj_n4', '$P::c03::rule_zwnj_b::<4, 16, _>', unwind=6, unwindset=(('25rule_zero_width_nonjoiner', 5),), stubs=('ctx',), timeout=1500, mem_gb=30,
+    H('C03', 'c03_rule_zwnj_n2', '$P::c03::rule_zwnj_b::<2, 8, _>', unwind=4, unwindset=(('25rule_zero_width_nonjoiner', 3), (r'10advance_by\w*\.0$', 2), ('10advance_by', 4)), stubs=('ctx',), expect_unsat_cover=('COVER: rejected because of the following character',), timeout=1200, mem_gb=18,
+      funcs=['context::rule_zero_width_nonjoiner', 'context::before', 'context::after'],
+      bound='labels of 0..=2 characters, every character any Unicode scalar value; offset ANY usize (the three-character cases with every neighbour are c03_nb_zwnj_*)'),
+    H('C03', 'c03_rule_zwnj_n4', '$P::c03::rule_zwnj_b::<4, 16, _>', unwind=6, unwindset=(('25rule_zero_width_nonjoiner', 5), (r'10advance_by\w*\.0$', 2), ('10advance_by', 6)), stubs=('ctx',), tiers=T, timeout=1500, mem_gb=30,
       funcs=['context::rule_zero_width_nonjoiner', 'context::before', 'context::after'],
       bound='labels of 0..=4 characters, every character any Unicode scalar value; offset ANY usize'),
-    H('C03', 'c03_rule_zwnj_n6', '$P::c03::rule_zwnj_b::<6, 24, _>', unwind=9, stubs=('ctx',), tiers=T, timeout=3400, mem_gb=24,
+    H('C03', 'c03_rule_zwnj_n6', '$P::c03::rule_zwnj_b::<6, 24, _>', unwind=8, unwindset=(('25rule_zero_width_nonjoiner', 7), (r'10advance_by\w*\.0$', 2), ('10advance_by', 8)), stubs=('ctx',), tiers=T, timeout=3400, mem_gb=24,
       funcs=['context::rule_zero_width_nonjoiner', 'context::before', 'context::after'],
       bound='labels of 0..=6 characters (transparent runs on both sides), every character any Unicode scalar value; offset ANY usize'),
     H('C03', 'c03_registry', '$P::c03::registry', unwind=4, stubs=('ctx',), timeout=900,
@@ -495,7 +498,10 @@ HARNESSES = [
     H('C02', 'c02_any_class_n2', '$P::c02::any_class::<2, 8, _>', unwind=5, stubs=('rule', 'adv', 'chars', 'count'), timeout=900, mem_gb=12,
       funcs=['StringClass::allows (default method)', 'stringclasses::allowed_by_context_rule'],
       bound='labels of 0..=2 characters (small, fast variant of c02_any_class_n4)'),
-    H('C02', 'c02_rulespec_n3', '$P::c02::any_class_rulespec::<3, 12, _>', unwind=9, stubs=('rulespec', 'adv', 'chars', 'count'), timeout=1500, mem_gb=36,
+    H('C02', 'c02_rulespec_n2', '$P::c02::any_class_rulespec::<2, 8, _>', unwind=9, stubs=('rulespec', 'adv', 'chars', 'count'), timeout=1200, mem_gb=14,
+      funcs=['StringClass::allows (default method)', 'stringclasses::allowed_by_context_rule', 'context::get_context_rule (registry shape)'],
+      bound='labels of 0..=2 characters (no U+200C), every character any other Unicode scalar value; values = ANY function of the characters; rules = their specifications'),
+    H('C02', 'c02_rulespec_n3', '$P::c02::any_class_rulespec::<3, 12, _>', unwind=9, stubs=('rulespec', 'adv', 'chars', 'count'), tiers=T, timeout=1500, mem_gb=36,
       funcs=['StringClass::allows (default method)', 'stringclasses::allowed_by_context_rule', 'context::get_context_rule (registry shape)'],
       bound='labels of 0..=3 characters (no U+200C), every character any other Unicode scalar value; derived property values = ANY function of the characters; rules = their specifications'),
     H('C02', 'c02_std_class_n2', '$P::c02::std_class::<2, 8, _>', unwind=5, stubs=('ctx', 'dpv'), tiers=T, timeout=3400, mem_gb=24,
@@ -649,7 +655,7 @@ HARNESSES = [
       funcs=['Profile::prepare/enforce of UsernameCaseMapped and UsernameCasePreserved', 'usernames::width_mapping_rule', 'usernames::directionality_rule', 'bidi::has_rtl/satisfy_bidi_rule', 'common::case_mapping_rule', 'IdentifierClass::allows + context dispatch'], bound='strings of 0..=1 characters over SIGMA_PIPE (43 witnesses), both username profiles'),
     H('C04', 'c04_username_mapped_enforce_n1', '$P::pipe_user::username::<1, 4, 4, true, true, _>', crate='profiles', unwind=5, stubs=('str', 'pipe4', 'pipe_bidi'), unwindset=pipe_us(1), timeout=1500, mem_gb=24,
       funcs=['Profile::prepare/enforce of UsernameCaseMapped and UsernameCasePreserved', 'usernames::width_mapping_rule', 'usernames::directionality_rule', 'bidi::has_rtl/satisfy_bidi_rule', 'common::case_mapping_rule', 'IdentifierClass::allows + context dispatch'], bound='strings of 0..=1 characters over SIGMA_PIPE (43 witnesses), both username profiles'),
-    H('C04', 'c04_username_preserved_enforce_n1', '$P::pipe_user::username::<1, 4, 4, false, true, _>', crate='profiles', unwind=5, stubs=('str', 'pipe4', 'pipe_bidi'), unwindset=pipe_us(1), timeout=1500, mem_gb=24,
+    H('C04', 'c04_username_preserved_enforce_n1', '$P::pipe_user::username::<1, 4, 4, false, true, _>', crate='profiles', unwind=5, stubs=('str', 'pipe4', 'pipe_bidi'), unwindset=pipe_us(1), tiers=T, timeout=1500, mem_gb=24,
       funcs=['Profile::prepare/enforce of UsernameCaseMapped and UsernameCasePreserved', 'usernames::width_mapping_rule', 'usernames::directionality_rule', 'bidi::has_rtl/satisfy_bidi_rule', 'common::case_mapping_rule', 'IdentifierClass::allows + context dispatch'], bound='strings of 0..=1 characters over SIGMA_PIPE (43 witnesses), both username profiles'),
     H('C04', 'c04_username_mapped_prepare_n2', '$P::pipe_user::username::<2, 8, 6, true, false, _>', crate='profiles', unwind=8, stubs=('str', 'pipe', 'pipe_bidi'), unwindset=pipe_us(2), tiers=T, timeout=3500, mem_gb=44,
       funcs=['Profile::prepare/enforce of UsernameCaseMapped and UsernameCasePreserved', 'usernames::width_mapping_rule', 'usernames::directionality_rule', 'bidi::has_rtl/satisfy_bidi_rule', 'common::case_mapping_rule', 'IdentifierClass::allows + context dispatch'], bound='strings of 0..=2 characters over SIGMA_PIPE (43 witnesses), both username profiles'),
@@ -688,7 +694,7 @@ HARNESSES = [
       funcs=['Nickname::enforce'], bound='canonical forms (per the specification, at most 2 characters) of all strings of 0..=1 characters over SIGMA_PIPE'),
     H('C08', 'c08_no_drift_mapped_n1', '$P::pipe_user::no_drift_username::<1, 8, 8, true, _>', crate='profiles', unwind=10, stubs=('str', 'pipe', 'pipe_bidi'), unwindset=pipe_us(2), tiers=T, timeout=1500, mem_gb=42,
       funcs=['UsernameCaseMapped::enforce'], bound='canonical forms (per the specification) of all strings of 0..=1 characters over SIGMA_PIPE'),
-    H('C08', 'c08_no_drift_preserved_n1', '$P::pipe_user::no_drift_username::<1, 8, 8, false, _>', crate='profiles', unwind=10, stubs=('str', 'pipe', 'pipe_bidi'), unwindset=pipe_us(2), timeout=1500, mem_gb=26,
+    H('C08', 'c08_no_drift_preserved_n1', '$P::pipe_user::no_drift_username::<1, 8, 8, false, _>', crate='profiles', unwind=10, stubs=('str', 'pipe', 'pipe_bidi'), unwindset=pipe_us(2), tiers=T, timeout=1500, mem_gb=26,
       funcs=['UsernameCasePreserved::enforce'], bound='canonical forms (per the specification) of all strings of 0..=1 characters over SIGMA_PIPE'),
     H('C16', 'c16_form_opaque_f0', '$P::pipe::api_form_freeform::<1, 4, 4, false, 0, _>', unwind=5, stubs=('str', 'pipe4', 'once'), unwindset=pipe_us(1), timeout=1500, mem_gb=17,
       funcs=['OpaqueString: static prepare'], bound='strings of 0..=1 characters over SIGMA_PIPE'),
@@ -726,7 +732,7 @@ HARNESSES = [
       funcs=['UsernameCaseMapped: enforce(Cow)'], bound='strings of 0..=1 characters over SIGMA_PIPE'),
     H('C16', 'c16_form_preserved_f0', '$P::pipe_user::api_form_username::<1, 4, 4, false, 0, _>', crate='profiles', unwind=5, stubs=('str', 'pipe4', 'pipe_bidi', 'once'), unwindset=pipe_us(1), timeout=1500, mem_gb=17,
       funcs=['UsernameCasePreserved: static prepare'], bound='strings of 0..=1 characters over SIGMA_PIPE'),
-    H('C16', 'c16_form_preserved_f1', '$P::pipe_user::api_form_username::<1, 4, 4, false, 1, _>', crate='profiles', unwind=5, stubs=('str', 'pipe4', 'pipe_bidi', 'once'), unwindset=pipe_us(1), timeout=1500, mem_gb=17,
+    H('C16', 'c16_form_preserved_f1', '$P::pipe_user::api_form_username::<1, 4, 4, false, 1, _>', crate='profiles', unwind=5, stubs=('str', 'pipe4', 'pipe_bidi', 'once'), unwindset=pipe_us(1), tiers=T, timeout=1500, mem_gb=17,
       funcs=['UsernameCasePreserved: static enforce'], bound='strings of 0..=1 characters over SIGMA_PIPE'),
     H('C16', 'c16_form_preserved_f2', '$P::pipe_user::api_form_username::<1, 4, 4, false, 2, _>', crate='profiles', unwind=5, stubs=('str', 'pipe4', 'pipe_bidi', 'once'), unwindset=pipe_us(1), tiers=T, timeout=1500, mem_gb=17,
       funcs=['UsernameCasePreserved: static compare(x, "a")'], bound='strings of 0..=1 characters over SIGMA_PIPE'),
@@ -766,7 +772,7 @@ HARNESSES.append(H('C01', 'c01_ctx_zwnj_n2', '$P::c01::ctx_rules::<2, 8, 0, _>',
                    funcs=['context::rule_zero_width_nonjoiner'], bound='labels of 0..=2 characters, every character any Unicode scalar value; offset ANY usize'))
 for _src, _t in [('c14_pairing', Q), ('c14_pred_is_space', Q), ('c14_pred_is_unassigned', Q), ('c02_any_class_n4', Q),
                  ('c12_nick_map_n3', Q), ('c12_opaque_map_n3', Q), ('c11_width_one', Q), ('c10_case_sigma_n2', Q), ('c11_width_map_n3', T), ('c10_case_sigma_n3', T),
-                 ('c13_stabilize_any_fn', Q), ('c05_opaque_enforce_n1', Q), ('c06_nickname_prepare_n1', Q), ('c04_username_preserved_enforce_n1', Q),
+                 ('c13_stabilize_any_fn', Q), ('c05_opaque_enforce_n1', Q), ('c06_nickname_prepare_n1', Q), ('c04_username_preserved_enforce_n1', T),
                  ('c07_const_nickname_k2', Q), ('c07_const_opaque_k1', Q), ('c09_bidi_rule_n4', Q),
                  ('c06_nickname_two_rounds_n1', T), ('c04_username_mapped_enforce_n1', T), ('c07_const_nickname_k1', T),
                  ('c12_nick_map_n5', T), ('c12_opaque_map_n5', T), ('c02_any_class_n6', T), ('c06_nickname_enforce_n2', T), ('c04_username_mapped_enforce_n2', T)]:
